@@ -127,12 +127,12 @@ func genEnumerated(thorough bool) []Desc {
 // (only Start/Stop/InterimTick/ProcessQueued/RetryTick/Final, no crash points): the stream in
 // which clause 4 holds by theorem.
 func genRandom(r *vh.Rng, thorough, guarded bool) []Desc {
-	n := 150
+	n := 100
 	if guarded {
-		n = 60
+		n = 40
 	}
 	if thorough {
-		n *= 15
+		n *= 12
 	}
 	var out []Desc
 	for i := 0; i < n; i++ {
